@@ -35,6 +35,14 @@ Fixpoint zlist_eqb (a b : list Z) : bool :=
   | _, _ => false
   end.
 
+(** balances of accounts that pay transaction gas in the same coin are reported as -1 = not compared *)
+Fixpoint zlist_eqb_mask (a b : list Z) : bool :=
+  match a, b with
+  | [], [] => true
+  | x :: a', y :: b' => ((y =? -1) || (x =? y)) && zlist_eqb_mask a' b'
+  | _, _ => false
+  end.
+
 (** registries are compared as sets (the collection iterates in key order, the model keeps creation order) *)
 Definition reg_agrees (s : st) (r : list mobs) : bool :=
   Nat.eqb (length r) (length (reg s)) &&
@@ -46,7 +54,7 @@ Definition touch_agrees (s : st) (ob : sobs) : bool :=
   | None => true
   end &&
   match so_td ob with
-  | Some d => zlist_eqb (map (fun a => bank s a d) (match so_tt ob with Some t => actors_e t | None => actors end)) (so_bbal ob)
+  | Some d => zlist_eqb_mask (map (fun a => bank s a d) (match so_tt ob with Some t => actors_e t | None => actors end)) (so_bbal ob)
   | None => true
   end.
 
@@ -61,7 +69,13 @@ Fixpoint first_mismatch (s : st) (c : case) (i : nat) : option nat :=
       if step_agrees s' ok ob then first_mismatch s' r (S i) else Some i
   end.
 
+(** the driver's world: the two EOAs and the two Cosmos accounts start with 10^17 unibi for gas and fees
+    (gas payments themselves are not modelled; the bank supply of unibi is reported relative to the rest of genesis) *)
+Definition setup_fund : Z := 100000000000000000.
+Definition setup : list op := [Fund 1 DGas setup_fund; Fund 2 DGas setup_fund; Fund 3 DGas setup_fund; Fund 4 DGas setup_fund]%nat.
+Definition world : st := run init setup.
+
 Definition mismatch (c : case) : bool :=
-  match first_mismatch init c 0 with Some _ => true | None => false end.
+  match first_mismatch world c 0 with Some _ => true | None => false end.
 
 Definition violates (c : case) : bool := negb (Pb (map (fun x => so_reg (snd x)) c)).
